@@ -377,7 +377,7 @@ def run(tier):
             by_tag.setdefault(c[2], []).append(i)
         for tag, idxs in by_tag.items():
             if len(idxs) > budget.get(tag, 500):
-                idxs = sorted(r.sample(idxs, budget[tag]))
+                idxs = sorted(r.sample(idxs, budget.get(tag, 500)))
             pick += idxs
         # cases that the oracle flagged always go to the model too
         terms = [f'eres_eqb (parse_expression {cstr(texts[i])}) {result_coq(impl[i])}' for i in pick]
